@@ -38,9 +38,10 @@ namespace LLBuild.Engine
 /-- **C01_value_gen_clamp.**  `C01_value_gen` with the client obligation `SigCovers` restricted to the
 external states the history can visit: `c` is a clamp that fixes the initial external state and every
 state a `mutate` of the history leads to (`MutOk`); signatures then need to cover the task definitions
-only at clamped external states (`SigCovers (clampPP c PP)`). -/
+only at clamped external states, and only for rules that can accept a stored value
+(`SigCoversValid (clampPP c PP)`; `SigCovers (clampPP c PP)` implies it, `SigCovers.toWeak`). -/
 theorem C01_value_gen_clamp {c : Env → Env} (h0 : c (fun _ => 0) = fun _ => 0) {PP : Nat → Program}
-    (hC : SigCovers (clampPP c PP)) (hS : SelfStable PP) {evs : List GEvent} {g0 : Nat}
+    (hC : SigCoversValid (clampPP c PP)) (hS : SelfStable PP) {evs : List GEvent} {g0 : Nat}
     {s s' : St} {g : Nat} {v : Val}
     (hrun : runG PP ({}, g0) evs = some (s, g)) (hmut : ∀ e ∈ evs, MutOk c e)
     (hret : step (PP g) s (.ret v) = some s') (hnd : s'.pendingDropped = false)
@@ -280,7 +281,7 @@ theorem EngineImpl_sound_C01_gen (rs0 : List RuleSpec) (gops : List GOp) (key ca
   obtain ⟨m1, m2, h1, h2, hrun⟩ := runG_upto_ret hr0 hrB hsplit
   refine ⟨m1, m2, h1, h2, ?_⟩
   intro hnd hc hcy he
-  exact C01_value_gen hC (PPof_SelfStable _) hrun h2 hnd ⟨hc, hcy, he⟩
+  exact C01_value_gen hC.toWeak (PPof_SelfStable _) hrun h2 hnd ⟨hc, hcy, he⟩
 
 /-- … with the DECIDABLE sufficient condition for `SigCovers` over all external states: no key changes its task. -/
 theorem EngineImpl_sound_C01_gen_fixed (rs0 : List RuleSpec) (gops : List GOp) (key cancelAt : Nat) (sched : List SchedItem)
@@ -335,7 +336,7 @@ theorem EngineImpl_sound_C01_gen_bounded (B : Nat) (rs0 : List RuleSpec) (gops :
     · exact ghistEvents_mutOk gops 0 _ gevs0 he0 (fun o ho => GOp.mutOk_of_mutBounded (hmut o ho)) e hmem
     · obtain ⟨x, hx, rfl⟩ := List.mem_map.1 hmem
       exact MutOk.of_noMutate _ (toEvents_noMutate heB x (by rw [hsplit]; exact List.mem_append_left _ hx))
-  exact C01_value_gen_clamp (clampSig_zero B) (PPof_SigCovers_clamp (List.cons_ne_nil _ _) hwf hsep)
+  exact C01_value_gen_clamp (clampSig_zero B) (PPof_SigCovers_clamp (List.cons_ne_nil _ _) hwf hsep).toWeak
     (PPof_SelfStable _) hrun hm h2 hnd ⟨hc, hcy, he⟩
 
 /-! ## Non-vacuity: two generations of a small description, a concrete history -/
